@@ -8,7 +8,7 @@ from hypothesis import strategies as st
 import darsia
 from vf import wass
 from vf.oracles import RefGrid
-from vf.runner import HarnessError, Outcome, Prop, Sub, Violation
+from vf.runner import jhash, HarnessError, Outcome, Prop, Sub, Violation
 
 
 # ---------------------------------------------------------------------------------------
@@ -439,9 +439,17 @@ def check_frontend(case):
     wimg = wass.make_weight(grid, {"kind": "const", "value": c}) if c is not None else None
     opts = wass.make_options(o)
     opts["return_info"] = False
+    # options the caller leaves out are left to the back-end's own defaults by both routes (every route gets
+    # a fresh copy of the dictionary)
+    omitted = [k for k in ("l1_mode", "mobility_mode", "formulation", "linear_solver")
+               if (jhash([case["mass"]["pseed"], k, "omit"])[0] in "0123")]
+    if o["formulation"] == "full" or o["linear_solver"] != "direct":
+        omitted = [k for k in omitted if k not in ("formulation", "linear_solver")]  # keep the pair consistent
+    for k in omitted:
+        opts.pop(k, None)
     method = "newton" if o["method"] == "newton" else "bregman"
     cls = darsia.WassersteinDistanceNewton if method == "newton" else darsia.WassersteinDistanceBregman
-    labels = ["weighted" if c else "unweighted"]
+    labels = ["weighted" if c else "unweighted"] + [f"omits-{k}" for k in omitted] + (["omits-nothing"] if not omitted else [])
     # the back-end first, observed: a failure of the front-end counts as the degenerate-mobility finding
     # only if the back-end fails in the same way on the same problem
     back_exc = None
@@ -482,7 +490,8 @@ def check_frontend(case):
     if len(big) == 1 and c is None and np.isfinite(front) and not tags.get("degenerate_mobility") and \
             o["linear_solver"] == "direct" and o["num_iter"] >= 1 and not o["aa_depth"]:
         ref = RefGrid(grid["shape"], grid["vox"])
-        want, _ = wass.ref_cost(ref, _unique_flux(ref, a, b), o["l1_mode"])
+        want, _ = wass.ref_cost(ref, _unique_flux(ref, a, b),
+                                "RAVIART_THOMAS" if "l1_mode" in omitted else o["l1_mode"])  # documented default
         if abs(front - want) > 1e-9 * (max(abs(want), 1e-12) + cap["linmax"] * ref.vol * ref.num_cells):
             raise Violation("frontend-grid", f"front-end {front!r}, cost of the unique flux on the image's grid "
                             f"{want!r}", tags)
